@@ -24,7 +24,7 @@ Next == \E e \in Answers :
           /\ EdgeClauses(Cfg, g, e) = {}
           /\ (e.op \in {"alloc"} /\ ~e.ok => e.unit = -1)
           /\ (e.op = "advance" => g.epoch < MaxEpoch)
-          /\ g' = Step(Cfg, g, e)
+          /\ g' = Step(Cfg, g, e, g.held)
           /\ last' = e
 
 Spec == Init /\ [][Next]_<<g, last>>
